@@ -408,6 +408,9 @@ impl<S: StateMachine> StateMachine for ObservedSm<S> {
         if fail {
             return Err(sm_err("injected fatal apply error"));
         }
+        if std::env::var_os("DSIM_DEBUG_APPLY").is_some() {
+            eprintln!("APPLY node={} inc={} t={} chunk={:?}", self.node, self.inc, crate::seams::vnow_ms(), chunk.iter().map(|e| (e.index, format!("{:?}", e.command).chars().take(12).collect::<String>())).collect::<Vec<_>>());
+        }
         let res = self.inner.apply_chunk(chunk).await?;
         let now = crate::seams::vnow_ms();
         let mut o = self.obs.lock().unwrap();
